@@ -17,6 +17,7 @@ struct Obs {
     kernel: String,
     opts: String,
     ty: String,
+    fam: String,
 }
 
 fn unsupported(msg: &str) -> bool {
@@ -32,10 +33,24 @@ enum R {
     Skip,
 }
 
+/// IEEE-754 does not say which NaN payload (or sign) an operation propagates, and vectorised
+/// and scalar code paths differ: every NaN in a kernel OUTPUT is one logical value
+fn canon_nan(t: String) -> String {
+    let nan = |bits: u64, exp: u64, man: u64| (bits & exp) == exp && (bits & man) != 0;
+    let parse = |s: &str| u64::from_str_radix(s, 16).ok();
+    let is_nan = match t.as_bytes().first() {
+        Some(b'h') if t.len() == 5 => parse(&t[1..]).is_some_and(|b| nan(b, 0x7C00, 0x03FF)),
+        Some(b'f') if t.len() == 9 => parse(&t[1..]).is_some_and(|b| nan(b, 0x7F80_0000, 0x007F_FFFF)),
+        Some(b'd') if t.len() == 17 => parse(&t[1..]).is_some_and(|b| nan(b, 0x7FF0_0000_0000_0000, 0x000F_FFFF_FFFF_FFFF)),
+        _ => false,
+    };
+    if is_nan { "NaN".to_string() } else { t }
+}
+
 fn run_kernel(f: impl FnOnce() -> Result<ArrayRef, ArrowError>) -> R {
     match guarded(f) {
         Ok(Ok(a)) => match guarded(|| tok::rows(a.as_ref())) {
-            Ok(r) => R::Rows(r),
+            Ok(r) => R::Rows(r.into_iter().map(canon_nan).collect()),
             Err(_) => R::Err,
         },
         Ok(Err(e)) => {
@@ -49,6 +64,8 @@ fn run_kernel(f: impl FnOnce() -> Result<ArrayRef, ArrowError>) -> R {
 
 struct Ctx {
     obs: Vec<Obs>,
+    /// type family of the inputs of the kernel calls being recorded
+    fam: String,
 }
 
 impl Ctx {
@@ -57,16 +74,16 @@ impl Ctx {
         let whole_key = format!("{kernel}|{opts}|{ty}|ALL|{}", ins.iter().map(|c| c.join(",")).collect::<Vec<_>>().join("||"));
         match r {
             R::Skip => {}
-            R::Err => self.obs.push(Obs { k: whole_key, o: "err".into(), kernel: kernel.into(), opts: opts.into(), ty: ty.into() }),
+            R::Err => self.obs.push(Obs { k: whole_key, o: "err".into(), kernel: kernel.into(), opts: opts.into(), ty: ty.into(), fam: self.fam.clone() }),
             R::Rows(out) => {
                 let n = ins.iter().map(|c| c.len()).max().unwrap_or(0);
                 if rowwise && out.len() == n {
                     for i in 0..n {
                         let tuple: Vec<&str> = ins.iter().map(|c| if c.len() == 1 && n != 1 { c[0].as_str() } else { c[i].as_str() }).collect();
-                        self.obs.push(Obs { k: format!("{kernel}|{opts}|{ty}|ROW|{}", tuple.join("||")), o: out[i].clone(), kernel: kernel.into(), opts: opts.into(), ty: ty.into() });
+                        self.obs.push(Obs { k: format!("{kernel}|{opts}|{ty}|ROW|{}", tuple.join("||")), o: out[i].clone(), kernel: kernel.into(), opts: opts.into(), ty: ty.into(), fam: self.fam.clone() });
                     }
                 }
-                self.obs.push(Obs { k: whole_key, o: format!("ok:{}", out.join(",")), kernel: kernel.into(), opts: opts.into(), ty: ty.into() });
+                self.obs.push(Obs { k: whole_key, o: format!("ok:{}", out.join(",")), kernel: kernel.into(), opts: opts.into(), ty: ty.into(), fam: self.fam.clone() });
             }
         }
     }
@@ -88,6 +105,7 @@ fn realise(rng: &mut Rng, a: &ArrayRef, k: usize) -> Vec<ArrayRef> {
 }
 
 fn unary_kernels(rng: &mut Rng, c: &mut Ctx, dt: &DataType, thorough: bool) {
+    c.fam = tok::family(dt).to_string();
     let n = mk::rand_len(rng, if thorough { 70 } else { 24 });
     let base = small_domain_array(rng, dt, n);
     let Ok(rows) = guarded(|| tok::rows(base.as_ref())) else { return };
@@ -227,6 +245,7 @@ fn cast_targets(dt: &DataType) -> Vec<DataType> {
 }
 
 fn binary_kernels(rng: &mut Rng, c: &mut Ctx, dt: &DataType, thorough: bool) {
+    c.fam = tok::family(dt).to_string();
     // one call in four uses long arrays with very few nulls (kernels switch strategy on the
     // null density / on 64-element chunks); the realisations put garbage under those nulls
     let long = dt.is_primitive() && rng.chance(50);
@@ -474,7 +493,7 @@ fn main() {
     vcore::quiet_panics();
     let mut rng = Rng::new(args.seed);
     let types = mk::all_types();
-    let mut c = Ctx { obs: vec![] };
+    let mut c = Ctx { obs: vec![], fam: String::new() };
     let rounds = args.scale(1, 12);
     for _ in 0..rounds {
         for dt in &types {
@@ -511,7 +530,7 @@ fn main() {
         for b in o.k.bytes() {
             h = (h ^ b as u64).wrapping_mul(1099511628211);
         }
-        traces[(h % shards as u64) as usize].emit(json!({"op":"obs","kernel":o.kernel,"opts":o.opts,"ty":o.ty,"k":o.k,"o":o.o}));
+        traces[(h % shards as u64) as usize].emit(json!({"op":"obs","kernel":o.kernel,"opts":o.opts,"ty":o.ty,"fam":o.fam,"k":o.k,"o":o.o}));
     }
     let mut n = 0;
     for t in traces {
